@@ -21,6 +21,7 @@ type c05Case struct {
 	N       int    `json:"n"`       // conditional branches
 	Truth   int    `json:"truth"`   // bit i: condition i true
 	Default bool   `json:"default"` // default branch present
+	DefPos  int    `json:"defpos"`  // position of the default flow in the fork's outgoing list (0..N)
 	Joins   int    `json:"joins"`   // bit i: branch i leads to the join (bit N: default branch)
 	Order   []int  `json:"order"`   // finishing order of the activated branches (indices)
 	Storm   bool   `json:"storm"`
@@ -65,7 +66,19 @@ func c05Graph(c *c05Case) *gen.Graph {
 		g.Connect(oj, tj, nil)
 		g.Connect(tj, ej, nil)
 	}
-	for i := 0; i < nb; i++ {
+	// order in which the fork lists its outgoing flows: conditional branches 0..N-1
+	// with the default branch (index N) inserted at DefPos
+	var order []int
+	for i := 0; i < c.N; i++ {
+		if c.Default && i == c.DefPos {
+			order = append(order, c.N)
+		}
+		order = append(order, i)
+	}
+	if c.Default && c.DefPos >= c.N {
+		order = append(order, c.N)
+	}
+	for _, i := range order {
 		b := g.Add(gen.Task, fmt.Sprintf("b%d", i), "")
 		if i == c.N {
 			f := g.Connect(of, b, nil)
@@ -93,7 +106,11 @@ func c05Cases(tier string, seed uint64) []fw.Case {
 					nb++
 				}
 				for joins := 0; joins < 1<<nb; joins++ {
-					c := c05Case{N: n, Truth: truth, Default: def, Joins: joins}
+					c := c05Case{N: n, Truth: truth, Default: def, Joins: joins, DefPos: n}
+					if def {
+						// the default flow takes every list position in turn over the grid
+						c.DefPos = (truth + joins) % (n + 1)
+					}
 					act := c.activated()
 					perms := fw.Permutations(len(act))
 					if len(perms) == 0 {
@@ -104,7 +121,7 @@ func c05Cases(tier string, seed uint64) []fw.Case {
 						for _, k := range p {
 							cc.Order = append(cc.Order, act[k])
 						}
-						cc.Name = fmt.Sprintf("n%d-t%d-d%v-j%d-p%d", n, truth, def, joins, pi)
+						cc.Name = fmt.Sprintf("n%d-t%d-d%v@%d-j%d-p%d", n, truth, def, c.DefPos, joins, pi)
 						cs = append(cs, fw.MkCase("stepwise", &cc))
 					}
 					if len(act) >= 2 && (tier == "thorough" || (truth+joins)%5 == 0) {
@@ -188,6 +205,9 @@ func c05Run(c *c05Case, env *fw.Env, v *fw.V) {
 	}
 	act := c.activated()
 	shape := fmt.Sprintf("default=%v", c.Default)
+	if c.Default && c.DefPos < c.N {
+		shape += "-not-last"
+	}
 	var want []string
 	for _, i := range act {
 		want = append(want, fmt.Sprintf("b%d", i))
